@@ -317,6 +317,15 @@ let run_script (c : cfg) (text : string) : string =
             | None -> "NULL"
             | Some (bs, len) -> Printf.sprintf "%d:%s" (int_of_n len) (hex_of_bytes bs))
          | None -> "nonode")
+      | 'N' ->
+        (match get_ref a with
+         | Some (Node (VBigDec (neg, ds), _, _, _, _)) ->
+           (* strtod on (at most 511 bytes of) the stored text, then the sign: edn_number_as_double *)
+           let rec take n l = if n = 0 then [] else (match l with [] -> [] | x :: t -> x :: take (n - 1) t) in
+           let h = hex_of_z64 (sf_to_bits (strtod_model (take 511 ds))) in
+           if neg then (let c0 = int_of_string ("0x" ^ String.sub h 0 1) in Printf.sprintf "%x%s" (c0 lxor 8) (String.sub h 1 15)) else h
+         | Some _ -> "na"
+         | None -> "na")
       | 'Q' ->
         (match String.split_on_char ',' a with
          | [x; h] ->
@@ -458,7 +467,7 @@ let () =
            | "doc" :: h :: reg :: mode :: eof :: rest ->
              let a = bytes_of_hex h in
              let len = match rest with [l] -> int_of_string l | _ -> Array.length a in
-             let o = opts_of (parse_registry reg) (z_of_int (int_of_string mode)) (eof = "1") in
+             let o = opts_of (parse_registry reg) (z_of_int (int_of_string mode)) (eof <> "0") in
              show_doc_result o (run_doc c o (mem_of a) (n_of_int len)) verbose
            | ["int64"; h; radix; neg] ->
              let a = bytes_of_hex h in
